@@ -41,12 +41,9 @@ def run(prog, rep):
     rep.functions.add(en.fn.qual)
     rep.call_sites += len(en.summ.sites)
     for key, shape, alts, kind, op in sem.plain_shapes():
-        if op in ("EW", "AW"):
-            continue            # C13
+        # (the weak untils are not in the property's list of operators, but they are well-formed formulae: shared with C13-R2)
         sem.check_shape(rep, "C01-R1", en, shape, alts, key, detail=f"{kind} {op}")
     for key, shape, alts, kind, op in sem.variant_shapes():
-        if op in ("EW", "AW"):
-            continue
         sem.check_shape(rep, "C01-R1", en, shape, alts, key, detail=f"{kind} {op} with a special operand")
     for key, shape, alts, is_pattern in sem.pattern_shapes():
         if not is_pattern:
